@@ -147,10 +147,21 @@ def gen_program(rng, target_lines, hist, cov):
                 emit("mig %d" % w, "mig")
             elif r < 96:
                 emit("dump %d" % rng.choice(live), "dump")
-            elif len(sim.alive_keys()) > 2:
-                i = rng.choice(sim.alive_keys())
+            elif r < 98 and len(sim.alive_keys()) > 2:
+                # free a key while units still hold values for it (legal: their destructors still run at unit free);
+                # often the most recently created one, and often followed by the creation of another key
+                ak = sim.alive_keys()
+                i = ak[-1] if rng.chance(1, 2) else rng.choice(ak)
                 emit("keyfree %d" % i, "keyfree")
                 sim.keys[i] = (sim.keys[i][0], False)
+                if rng.chance(2, 3) and len(sim.keys) < 3900:
+                    d = rng.below(3)
+                    emit("key %d" % d, "key_late")
+                    sim.keys.append((d, True))
+            elif len(sim.keys) < 3900:
+                d = rng.below(3)
+                emit("key %d" % d, "key_late")
+                sim.keys.append((d, True))
             else:
                 emit("dump 0", "dump")
         finish_cycle()
@@ -265,13 +276,29 @@ def t2_keys(res, tier, broken):
     hist = collections.Counter()
     cov = {"sizes": set(), "max_keys": 0}
     total_lines = 0
-    for r in range(rounds):
+    pending = None      # first disagreement without a property failure (reported if the search finds nothing better)
+    r = -1
+    while r + 1 < rounds:
+        r += 1
         lines = gen_program(rng, nlines, hist, cov)
         total_lines += len(lines)
         if r == 0:
             res.sample({"api_keys_ops": lines[:14]})
         d = _cmp(exe, lines)
         if d is None:
+            continue
+        if pending is not None:
+            # the tie is already known to be broken: only look for a history on which the property itself fails
+            vh = D.violating_history(lines, lambda ls: D.run_lines([exe], ls), oracle, budget=250,
+                                     legal=lambda ls: not any("bad-op" in x or "harness-error" in x for x in D.run_lines([exe], ls)[1]))
+            if vh:
+                small, why = vh
+                rc, out_c, err = D.run_lines([exe], small)
+                res.violation("work-unit-local storage does not behave as a per-unit map: " + why,
+                              {"correspondence": "T2 keys (harness/api_keys.c vs Model.KTable via `driver ktable`)", "ops": small,
+                               "disagreement": _cmp(exe, small) or d, "impl_output": out_c[:200], "oracle": why})
+                pending = None
+                break
             continue
 
         def still(ls):
@@ -280,6 +307,15 @@ def t2_keys(res, tier, broken):
                 return False
             rc, oc, _ = D.run_lines([exe], ls)
             return not any("bad-op" in x or "harness-error" in x for x in oc)
+        vh = D.violating_history(lines, lambda ls: D.run_lines([exe], ls), oracle, budget=250,
+                                 legal=lambda ls: not any("bad-op" in x or "harness-error" in x for x in D.run_lines([exe], ls)[1]))
+        if vh:
+            small, why = vh
+            rc, out_c, err = D.run_lines([exe], small)
+            res.violation("work-unit-local storage does not behave as a per-unit map: " + why,
+                          {"correspondence": "T2 keys (harness/api_keys.c vs Model.KTable via `driver ktable`)", "ops": small,
+                           "disagreement": _cmp(exe, small) or d, "impl_output": out_c[:200], "oracle": why})
+            break
         small = D.ddmin(lines, still, keep_prefix=0, budget=250)
         d2 = _cmp(exe, small) or d
         rc, out_c, err = D.run_lines([exe], small)
@@ -288,10 +324,12 @@ def t2_keys(res, tier, broken):
                "disagreement": d2, "impl_output": out_c[:200], "oracle": why}
         if why:
             res.violation("work-unit-local storage does not behave as a per-unit map: " + why, rep)
-        else:
-            res.violation("T2 key-table correspondence broken (implementation still map-like on this input: layout / "
-                          "destructor order / block carving differs from the model)", rep, no_input=True)
-        break
+            break
+        pending = rep
+        rounds = max(rounds, 40)
+    if pending is not None:
+        res.violation("T2 key-table correspondence broken (implementation still map-like on every explored history: layout / "
+                      "destructor order / block carving differs from the model)", pending, no_input=True)
     nsub = sum(v for k, v in hist.items() if k.startswith("sub_"))
     res.add_cov(programs=rounds, disagreements_checked=total_lines, key_ops=nsub + total_lines,
                 key_op_histogram=dict(hist), key_table_sizes=sorted(cov["sizes"]), max_live_keys=cov["max_keys"])
